@@ -24,7 +24,7 @@ Definition c_space := ch " ".   Definition c_tab := ascii_of_nat 9.
 Definition c_dq := ascii_of_nat 34.   Definition c_sq := ch "'".   Definition c_bs := ch "\".
 Definition c_eq := ch "=".   Definition c_dash := ch "-".   Definition c_at := ch "@".
 Definition c_dollar := ch "$".   Definition c_lbrace := ch "{".   Definition c_rbrace := ch "}".
-Definition c_lbrack := ch "[".
+Definition c_lbrack := ch "[".   Definition c_rbrack := ch "]".
 Definition c_colon := ch ":".   Definition c_bang := ch "!".   Definition c_semi := ch ";".
 Definition c_nl := ascii_of_nat 10.   Definition c_n := ch "n".
 
@@ -186,6 +186,40 @@ Fixpoint expand (env : list (string * string)) (s : string) : string :=
             if aeqb b c_lbrace then
               match find_unesc c_rbrace body with
               | Some (inside, after) => subst_brace env inside ++ after
+              | None => String c r'
+              end
+            else String c r'
+        | EmptyString => String c r'
+        end
+      else String c r'
+  end.
+
+(* the same with $[key] / $[key:default] references (expand_bracket: root_->get_entry(key,
+   default), i.e. the value of another entry; [look] is the configuration the entry is read
+   from).  Used for the one entry whose value comes from the user's command line
+   (pika.reconstructed_cmd_line); the built-in lines compared by the check contain no $[..]. *)
+Definition subst_bracket (look : string -> option string) (inside : string) : string :=
+  match find_unesc c_colon inside with
+  | None => match look inside with Some v => v | None => "" end
+  | Some (name, dflt) => match look name with Some v => v | None => dflt end
+  end.
+
+Fixpoint expand_entry (env : list (string * string)) (look : string -> option string) (s : string) : string :=
+  match s with
+  | EmptyString => EmptyString
+  | String c r =>
+      let r' := expand_entry env look r in
+      if aeqb c c_dollar then
+        match r' with
+        | String b body =>
+            if aeqb b c_lbrace then
+              match find_unesc c_rbrace body with
+              | Some (inside, after) => subst_brace env inside ++ after
+              | None => String c r'
+              end
+            else if aeqb b c_lbrack then
+              match find_unesc c_rbrack body with
+              | Some (inside, after) => subst_bracket look inside ++ after
               | None => String c r'
               end
             else String c r'
@@ -601,11 +635,13 @@ Definition late_line_ok (arg0 pco : string) (args : list string) : bool :=
                  end
   end.
 
-Definition app_argv (arg0 pco : string) (args : list string) (p : parsed) : option (list string) + reject :=
+Definition app_argv (ex : string -> string) (arg0 pco : string) (args : list string) (p : parsed) : option (list string) + reject :=
   if (match p_unreg p with [] => false | _ => true end) then inr RLateUnknown else
   if negb (late_line_ok arg0 pco args) then inr RLateSplit else
-  (* the line travels through an ini entry (pika.reconstructed_cmd_line): the value is trimmed *)
-  let line := trim (encode_and_enquote arg0 ++ " " ++ reconstruct p ++ " ") in
+  (* the line travels through an ini entry (pika.reconstructed_cmd_line): the value is trimmed when
+     it is stored and EXPANDED when init_helper reads it back with get_config_entry ([ex]): ${NAME}
+     and $[key] words of the user's arguments are replaced (finding C16:app_args:dollar_expanded) *)
+  let line := ex (trim (encode_and_enquote arg0 ++ " " ++ reconstruct p ++ " ")) in
   match split_unix line with
   | None => inr RLateSplit
   | Some toks => inl (Some (app_filter (tl toks)))
@@ -642,7 +678,11 @@ Definition run (env : list (string * string)) (m : machine) (arg0 : string) (arg
         negb (String.eqb (match assoc_last "pika.commandline.allow_unknown" inis None with
                           | Some v => expand env v | None => builtin env "pika.commandline.allow_unknown" end) "0") in
       if allow_unknown then Unsupported else
-      handle env p inis m (forallb ini_line_ok lines) (fun resolved => final_entries env inis resolved)
-             (fun _ => app_argv arg0 pco args p)
+      let h := handle env p inis m (forallb ini_line_ok lines) (fun resolved => final_entries env inis resolved) in
+      (* $[key] in the rebuilt command line refers to the final configuration; the entries do not
+         depend on the application arguments, so they are taken from a run of the handlers with a
+         dummy argv *)
+      let look k := match h (fun _ => inl (Some [])) with Started c0 => assoc k (c_entries c0) | _ => None end in
+      h (fun _ => app_argv (expand_entry env look) arg0 pco args p)
     end
   end.
